@@ -224,6 +224,19 @@ pub fn cli(path: &str) {
       files: p["files"].as_object().unwrap().iter().map(|(k, v)| (k.clone(), v.as_str().unwrap().to_string())).collect(),
     });
   }
+  if std::env::var("DGH_FC_CACHE").is_ok() {
+    // cold and warm run with a shared cache, slot kinds only
+    let cache = MemCache::default();
+    for label in ["no cache", "cold", "warm"] {
+      let r = if label == "no cache" { run_fast_check(&w, None, false) } else { run_fast_check(&w, Some(&cache), false) };
+      println!("--- {}", label);
+      for (u, s) in &r.slots {
+        println!("{} {}", u, match s { FcSlot::None => "none".to_string(), FcSlot::Module { text, .. } => format!("module ({} bytes)", text.len()), FcSlot::Diagnostics(d) => format!("diagnostics {:?}", d) });
+      }
+      println!("cache gets {:?} sets {:?}", cache.gets.borrow(), cache.sets.borrow());
+    }
+    return;
+  }
   let r = run_fast_check(&w, None, false);
   for e in &r.graph_errors {
     println!("GRAPH ERROR {}", e);
